@@ -1,5 +1,7 @@
 (* C05 — property theorems only: a computation on a table with masked / undefined samples equals the same
-   computation on the physically reduced table, up to the renaming of ranks.  No bound on the number of samples. *)
+   computation on the physically reduced table, up to the renaming of ranks.  No bound on the number of samples.
+   Aligned with the corrected code (Db::getRanksActive through isActive + useCoord, _hasCoordinates in Vario.cpp,
+   ANeigh::_discardUndefined on coordinates / external drifts, turning-bands _isSampleUsable and masked targets). *)
 From Coq Require Import List Arith ZArith QArith Bool Sorted.
 From Gst Require Import lib.QAux lib.LinAlgQ C05.Reindex C05.Model C05.Spec C05.Proofs_db.
 From Gst Require C01.Model C01.Proofs C06.Model C06.Spec C12.Model.
@@ -33,62 +35,59 @@ Proof. exact stat_multi_reduce. Qed.
 Print Assumptions C05_stats_multi.
 
 (* ---------------------------------------------------------------------------------------------- rank lists *)
-(* Db::getRanksActive(nbgh = {}, item, useSel = true): exactly the active samples where the variable is defined *)
-Theorem C05_ranks_active : forall hasSel nz nv item db i,
-  sel_wf hasSel db -> (0 < nz)%nat -> (0 <= item)%Z ->
-  (In i (ranks_active hasSel nz nv [] item true false db) <->
-   (i < length db)%nat /\ is_active_and_defined hasSel (Z.to_nat item) (nth_row db i) = true).
+(* Db::getRanksActive(nbgh = {}, item, useSel = true, useVerr = false, useCoord): exactly the active samples (with all their
+   coordinates, when useCoord) where the variable is defined - whatever the values held by the selection column
+   (0/1, undefined, negative, below 1e-10): the list reads the selection through isActive() *)
+Theorem C05_ranks_active : forall hasSel nz nv item useCoord db i,
+  (0 < nz)%nat -> (0 <= item)%Z ->
+  (In i (ranks_active hasSel nz nv [] item true false useCoord db) <->
+   (i < length db)%nat /\ is_active_and_defined hasSel (Z.to_nat item) (nth_row db i) = true /\
+   (useCoord = true -> coords_defined (nth_row db i) = true)).
 Proof. exact ranks_active_spec. Qed.
 Print Assumptions C05_ranks_active.
 
-(* ... and they are the ranks found in the reduced table, renamed *)
-Theorem C05_ranks_reduce : forall hasSel nz nv ivars useVerr db,
-  sel_wf hasSel db ->
-  multiple_ranks_active hasSel nz nv ivars [] true useVerr db =
-  map (map (ren (kept_rows hasSel db))) (multiple_ranks_active hasSel nz nv ivars [] true useVerr (reduce_db hasSel db)).
+(* ... and they are the ranks found in the reduced table (masked samples removed and, with useCoord, samples without
+   coordinates), renamed.  No premise on the selection values. *)
+Theorem C05_ranks_reduce : forall hasSel nz nv ivars useVerr useCoord db,
+  multiple_ranks_active hasSel nz nv ivars [] true useVerr useCoord db =
+  map (map (ren (kept_rows hasSel useCoord db)))
+      (multiple_ranks_active hasSel nz nv ivars [] true useVerr useCoord (reduce_db hasSel useCoord db)).
 Proof. exact multiple_ranks_reduce. Qed.
 Print Assumptions C05_ranks_reduce.
 
-Theorem C05_reduce_db_is_filter : forall hasSel db, reduce_db hasSel db = reduce_rows hasSel db.
-Proof. exact reduce_db_filter. Qed.
+Theorem C05_reduce_db_is_filter : forall hasSel useCoord db,
+  reduce_db hasSel useCoord db = filter (row_kept hasSel useCoord) db /\ reduce_db hasSel false db = reduce_rows hasSel db.
+Proof. intros. split; [apply reduce_db_filter|apply reduce_db_rows]. Qed.
 Print Assumptions C05_reduce_db_is_filter.
 
-(* the premise sel_wf is needed: getRanksActive tests "value > 0" on the raw selection column whereas isActive
-   tests "defined and not zero": with an undefined selection value the sample is masked for isActive and kept by
-   getRanksActive (hence by evalCovMatrix*, evalDriftMatrix).  Replayed on the implementation: covmat:selection-NA *)
-Definition refute_db : list row :=
-  [ {| r_sel := Some 1; r_w := None; r_vals := [Some 1]; r_verr := [] |};
-    {| r_sel := None;   r_w := None; r_vals := [Some 2]; r_verr := [] |} ].
-Theorem C05_ranks_reduce_refuted : exists db,
-  is_active true (nth_row db 1) = false /\ In 1%nat (ranks_active true 1 0 [] 0 true false db) /\
-  multiple_ranks_active true 1 0 [0%nat] [] true false db <>
-  map (map (ren (kept_rows true db))) (multiple_ranks_active true 1 0 [0%nat] [] true false (reduce_db true db)).
-Proof. exists refute_db. vm_compute. repeat split; [right; left; reflexivity|discriminate]. Qed.
-Print Assumptions C05_ranks_reduce_refuted.
-
 (* ---------------------------------------------------------------------------------------------- matrices *)
-(* ACov::evalCovMatrix[Optim] / evalCovMatrixSymmetric[Optim] / DriftList::evalDriftMatrix: the matrix computed on the
-   masked table is the matrix computed on the reduced table (the oracle functions being re-indexed accordingly) *)
+(* ACov::evalCovMatrix[Optim] / evalCovMatrixSymmetric[Optim] / DriftList::evalDriftMatrix (which call getMultipleRanksActive
+   with useCoord = true): the matrix computed on the table with masked samples and samples without coordinates is the matrix
+   computed on the table where both have been removed (the oracle functions being re-indexed accordingly) *)
 Theorem C05_covmat : forall cov hasSel nz nv ivars jvars db,
-  sel_wf hasSel db ->
   cov_matrix cov hasSel nz nv ivars jvars db =
-  cov_matrix (fun iv a jv b => cov iv (ren (kept_rows hasSel db) a) jv (ren (kept_rows hasSel db) b))
-             hasSel nz nv ivars jvars (reduce_db hasSel db).
+  cov_matrix (fun iv a jv b => cov iv (ren (kept_rows hasSel true db) a) jv (ren (kept_rows hasSel true db) b))
+             hasSel nz nv ivars jvars (reduce_db hasSel true db).
 Proof. exact cov_matrix_reduce. Qed.
 Print Assumptions C05_covmat.
 Theorem C05_covmat_sym : forall cov hasSel nz nv ivars db,
-  sel_wf hasSel db ->
   cov_matrix_sym cov hasSel nz nv ivars db =
-  cov_matrix_sym (fun iv a jv b => cov iv (ren (kept_rows hasSel db) a) jv (ren (kept_rows hasSel db) b))
-                 hasSel nz nv ivars (reduce_db hasSel db).
+  cov_matrix_sym (fun iv a jv b => cov iv (ren (kept_rows hasSel true db) a) jv (ren (kept_rows hasSel true db) b))
+                 hasSel nz nv ivars (reduce_db hasSel true db).
 Proof. exact cov_matrix_sym_reduce. Qed.
 Print Assumptions C05_covmat_sym.
 Theorem C05_driftmat : forall drift hasSel nz nv ivars ncols useVerr db,
-  sel_wf hasSel db ->
   drift_matrix drift hasSel nz nv ivars ncols useVerr db =
-  drift_matrix (fun iv a jb => drift iv (ren (kept_rows hasSel db) a) jb) hasSel nz nv ivars ncols useVerr (reduce_db hasSel db).
+  drift_matrix (fun iv a jb => drift iv (ren (kept_rows hasSel true db) a) jb) hasSel nz nv ivars ncols useVerr (reduce_db hasSel true db).
 Proof. exact drift_matrix_reduce. Qed.
 Print Assumptions C05_driftmat.
+
+(* no row of these matrices belongs to a masked sample (whatever its selection value) or to a sample without coordinates *)
+Theorem C05_matrix_rows_usable : forall hasSel nz nv ivars useVerr db idx i,
+  In idx (multiple_ranks_active hasSel nz nv ivars [] true useVerr true db) -> In i idx ->
+  (i < length db)%nat /\ is_active hasSel (nth_row db i) = true /\ coords_defined (nth_row db i) = true.
+Proof. exact matrix_rows_usable. Qed.
+Print Assumptions C05_matrix_rows_usable.
 
 (* ---------------------------------------------------------------------------------------------- targets *)
 (* new output variables are created undefined and estimate() returns at once on a masked target:
@@ -104,6 +103,32 @@ Theorem C05_targets : forall nold nnew est ts it d,
   (t_active t = true -> skipn nold (t_cells t') = est it).
 Proof. exact run_targets_spec. Qed.
 Print Assumptions C05_targets.
+
+(* the same for the turning-bands simulations: the variables are created with 0 and accumulated at the active targets,
+   the last step of CalcSimuTurningBands::_run writes the undefined value at every masked target *)
+Theorem C05_targets_simu : forall nold nnew sim ts it d,
+  (it < length ts)%nat -> length (t_cells (nth it ts d)) = nold ->
+  let t := nth it ts d in
+  let t' := nth it (run_simu_targets nold nnew sim ts) d in
+  t_active t' = t_active t /\
+  firstn nold (t_cells t') = t_cells t /\
+  (t_active t = false -> skipn nold (t_cells t') = repeat None nnew) /\
+  (t_active t = true -> skipn nold (t_cells t') = sim it).
+Proof. exact run_simu_targets_spec. Qed.
+Print Assumptions C05_targets_simu.
+
+(* turning bands: the extent of a band (hence the number of Poisson points drawn along it, hence the random stream) and the
+   set of points where the non-conditional simulation is evaluated only depend on the samples that are active, have all
+   their coordinates and, when the Db carries variables, at least one defined value *)
+Theorem C05_simu_bands : forall hasSel nz proj init l,
+  band_minmax hasSel nz proj init l = band_minmax hasSel nz proj init (reduce_simu hasSel nz l).
+Proof. exact band_minmax_reduce. Qed.
+Print Assumptions C05_simu_bands.
+Theorem C05_simu_points : forall hasSel nz l i,
+  nth i (simu_active_array hasSel nz l) false = true ->
+  is_active hasSel (nth i l dummy_row) = true /\ simu_usable nz (nth i l dummy_row) = true.
+Proof. exact simu_active_array_spec. Qed.
+Print Assumptions C05_simu_points.
 
 (* ---------------------------------------------------------------------------------------------- kriging (model of C01) *)
 (* [kreduce k] physically removes from the neighbourhood every sample that gives no equation (undefined coordinate or
@@ -217,25 +242,61 @@ Theorem C05_vario_zero_weight : forall cf d means a b u,
 Proof. exact pair_updates_zero_weight. Qed.
 Print Assumptions C05_vario_zero_weight.
 
+(* ---------------------------------------------------------------------------------------------- samples without coordinates *)
+(* The models of C06 and C12 have total coordinates.  The corrected code discards a sample with an undefined coordinate
+   (or external drift, for the neighbourhood) at the very place where it discards a masked one; such a sample is
+   therefore rendered in those models as a masked one (nembed / vembed, coq/C05/Spec_neigh.v, Spec_vario.v), and the
+   theorems below follow.  (For the variogram the rendering is exact but for the global mean of Vario::_getStatistics,
+   which the Poisson estimator consumes and which still counts the samples without coordinates: key
+   vario:undefined-coordinate:mean of the check, candidate fix fixes/C05_7.patch.) *)
+Theorem C05_neigh_undefined : forall oracle p t (l : list nrow),
+  let K := nkept (map nembed l) in
+  let r := C06.Model.moving oracle p t (map nembed l) in
+  let r' := C06.Model.moving oracle p t (map nembed (filter nusable l)) in
+  C06.Model.r_ranks r = map (ren K) (C06.Model.r_ranks r') /\ (C06.Model.r_code r = 0%Z <-> C06.Model.r_code r' = 0%Z).
+Proof. exact moving_reduce_undefined. Qed.
+Print Assumptions C05_neigh_undefined.
+Theorem C05_neigh_undefined_never_candidate : forall oracle p t i (x : nrow),
+  (forallb odef (n_coords x) && forallb odef (n_fext x) = false) -> C06.Model.cand_of oracle p t (i, nembed x) = None.
+Proof. exact cand_of_undefined. Qed.
+Print Assumptions C05_neigh_undefined_never_candidate.
+Theorem C05_vario_undefined : forall cf flag_sample d (l : list (list (option Q) * C12.Model.sample)),
+  C12.Model.compute_dir (vcfg cf) flag_sample d (map (vembed cf) (filter (vusable cf) l)) =
+  C12.Model.compute_dir (vcfg cf) flag_sample d (map (vembed cf) l).
+Proof. exact compute_dir_coords. Qed.
+Print Assumptions C05_vario_undefined.
+
 (* ---------------------------------------------------------------------------------------------- non-vacuity *)
 Definition ex_rows : list row :=
-  [ {| r_sel := Some 1; r_w := Some 2;  r_vals := [Some 1; Some 10];  r_verr := [Some 0] |};
-    {| r_sel := Some 0; r_w := Some 1;  r_vals := [Some 100; Some 5]; r_verr := [Some 0] |};
-    {| r_sel := Some 1; r_w := None;    r_vals := [None; Some 7];     r_verr := [None] |};
-    {| r_sel := Some 1; r_w := Some 0;  r_vals := [Some 4; None];     r_verr := [Some 1] |};
-    {| r_sel := Some 1; r_w := Some (-1); r_vals := [Some (-3); Some 2]; r_verr := [Some (-1)] |} ].
+  [ {| r_sel := Some 1; r_w := Some 2;  r_coords := [Some 0; Some 0]; r_vals := [Some 1; Some 10];  r_verr := [Some 0] |};
+    {| r_sel := Some 0; r_w := Some 1;  r_coords := [Some 1; Some 0]; r_vals := [Some 100; Some 5]; r_verr := [Some 0] |};
+    {| r_sel := Some 1; r_w := None;    r_coords := [Some 2; Some 0]; r_vals := [None; Some 7];     r_verr := [None] |};
+    {| r_sel := Some 1; r_w := Some 0;  r_coords := [Some 3; None];   r_vals := [Some 4; None];     r_verr := [Some 1] |};
+    {| r_sel := Some 1; r_w := Some (-1); r_coords := [Some 4; Some 1]; r_vals := [Some (-3); Some 2]; r_verr := [Some (-1)] |};
+    {| r_sel := None;   r_w := Some 1;  r_coords := [Some 5; Some 1]; r_vals := [Some 9; Some 9];   r_verr := [Some 0] |} ].
 Example C05_stats_nonvacuous :
   o_num (stat_mono true false 0 ex_rows) = 3%nat /\ o_mean (stat_mono true false 0 ex_rows) = Some (2 # 3) /\
   o_num (stat_mono true true 0 ex_rows) = 2%nat /\
   length (reduce_rows true ex_rows) = 4%nat /\ length (reduce_var true false 0 ex_rows) = 3%nat /\
-  o_num (stat_mono false false 0 ex_rows) = 4%nat (* without the filter the masked 100 would count *).
+  o_num (stat_mono false false 0 ex_rows) = 5%nat (* without the filter the masked 100 and 9 would count *).
 Proof. vm_compute. repeat split; reflexivity. Qed.
+(* sample 1 is masked (0), sample 5 is masked by an undefined selection value, sample 3 has no second coordinate *)
 Example C05_ranks_nonvacuous :
-  sel_pass (nth_row ex_rows 1) = is_active true (nth_row ex_rows 1) /\
-  multiple_ranks_active true 2 1 [] [] true false ex_rows = [[0; 3; 4]; [0; 2; 4]]%nat /\
-  multiple_ranks_active true 2 1 [0%nat] [] true true ex_rows = [[0; 3]]%nat /\
-  kept_rows true ex_rows = [0; 2; 3; 4]%nat /\
-  multiple_ranks_active true 2 1 [] [] true false (reduce_db true ex_rows) = [[0; 2; 3]; [0; 1; 3]]%nat.
+  multiple_ranks_active true 2 1 [] [] true false false ex_rows = [[0; 3; 4]; [0; 2; 4]]%nat /\
+  multiple_ranks_active true 2 1 [] [] true false true ex_rows = [[0; 4]; [0; 2; 4]]%nat /\
+  multiple_ranks_active true 2 1 [0%nat] [] true true false ex_rows = [[0; 3]]%nat /\
+  kept_rows true false ex_rows = [0; 2; 3; 4]%nat /\ kept_rows true true ex_rows = [0; 2; 4]%nat /\
+  multiple_ranks_active true 2 1 [] [] true false true (reduce_db true true ex_rows) = [[0; 2]; [0; 1; 2]]%nat /\
+  multiple_ranks_active false 2 1 [] [] true false false ex_rows = [[0; 1; 3; 4; 5]; [0; 1; 2; 4; 5]]%nat.
+Proof. vm_compute. repeat split; reflexivity. Qed.
+(* turning bands: the band [0, 4] of the usable samples; sample 3 (no coordinate) and 1, 5 (masked) do not stretch it *)
+Example C05_simu_nonvacuous :
+  let proj := fun r => match nth 0 (r_coords r) None with Some x => x | None => inject_Z (10 ^ 30) end in
+  band_minmax true 2 proj (inject_Z (10 ^ 30), - inject_Z (10 ^ 30)) ex_rows = (0, 4) /\
+  simu_active_array true 2 ex_rows = [true; false; true; false; true; false] /\ length (reduce_simu true 2 ex_rows) = 3%nat /\
+  run_simu_targets 1 1 (fun it => [Some (inject_Z (Z.of_nat it))])
+    [ {| t_active := true; t_cells := [Some 5] |}; {| t_active := false; t_cells := [Some 6] |} ] =
+    [ {| t_active := true; t_cells := [Some 5; Some 0] |}; {| t_active := false; t_cells := [Some 6; None] |} ].
 Proof. vm_compute. repeat split; reflexivity. Qed.
 Example C05_targets_nonvacuous :
   run_targets 1 2 (fun it => [Some (inject_Z (Z.of_nat it)); None])
@@ -306,4 +367,22 @@ Example C05_vario_zero_weight_nonvacuous :
   weight_product_calc (C12.Model.c_calc cf) = true /\ qeqb (C12.Model.get_weight cf b) 0 = true /\
   length (C12.Model.pair_updates cf ex_vd [0] a b) = 1%nat /\
   map (fun u => qeqb (C12.Model.u_sw u) 0 && qeqb (C12.Model.u_glo u) 0) (C12.Model.pair_updates cf ex_vd [0] a b) = [true].
+Proof. vm_compute. repeat split; reflexivity. Qed.
+
+(* samples without coordinates / external drift: sample 1 has no second coordinate, sample 2 no external drift *)
+Example C05_neigh_undefined_nonvacuous :
+  let t := {| C06.Model.t_coords := [0; 0]; C06.Model.t_code := None |} in
+  let mk := fun c f v => {| n_coords := c; n_fext := f; n_s := ex_ns true 0 0 v |} in
+  let l := [mk [Some 3; Some 0] [Some 1] (Some 1); mk [Some 0; None] [Some 1] (Some 1); mk [Some 1; Some 0] [None] (Some 1);
+            mk [Some 1; Some 1] [Some 1] (Some 1); mk [Some 0; Some 2] [Some 1] (Some 1)] in
+  map nusable l = [true; false; false; true; true] /\
+  C06.Model.r_ranks (C06.Model.moving (fun _ _ => 0%nat) ex_np t (map nembed l)) = [3; 4]%nat /\
+  C06.Model.r_ranks (C06.Model.moving (fun _ _ => 0%nat) ex_np t (map nembed (filter nusable l))) = [1; 2]%nat.
+Proof. vm_compute. repeat split; reflexivity. Qed.
+Example C05_vario_undefined_nonvacuous :
+  let cf := cfg_nosel ex_vcf in
+  let l := [([Some 2], ex_vs 0 true 5); ([None], ex_vs 0 true 100); ([Some 0], ex_vs 0 true 1); ([Some 3], ex_vs 0 true 2)] in
+  map (vusable cf) l = [true; false; true; true] /\
+  length (C12.Model.reached1 (vcfg cf) ex_vd (map (vembed cf) l)) = 3%nat /\
+  map (map C12.Model.o_sw) (C12.Model.compute_dir (vcfg cf) false ex_vd (map (vembed cf) l)) = [[0; 1; 1; 1]].
 Proof. vm_compute. repeat split; reflexivity. Qed.
